@@ -46,7 +46,7 @@ BINOPS = {
     "and": _op.and_, "or": _op.or_, "xor": _op.xor,
 }
 UNOPS = {"neg": _op.neg, "pos": _op.pos, "invert": _op.invert}
-METHODS0 = ("abs", "is_null", "is_not_null", "floor", "ceil", "exp", "log", "sqrt")
+METHODS0 = ("abs", "is_null", "is_not_null", "floor", "ceil", "exp", "log", "sqrt", "is_nan", "is_not_nan")
 STRMETH = {
     "str_len": "len", "str_upper": "upper", "str_lower": "lower", "str_strip": "strip",
     "str_starts_with": "starts_with", "str_ends_with": "ends_with", "str_contains": "contains",
